@@ -201,6 +201,6 @@ CallBuiltin(f, hasRecv, recv, args) ==
          [] f = "dyn"    -> IF hasRecv THEN AnyOut ELSE IF n = 1 THEN Ok(all[1]) ELSE Err("other")
          [] f = "min"    -> IF hasRecv THEN AnyOut ELSE MinMax(args, FALSE)
          [] f = "max"    -> IF hasRecv THEN AnyOut ELSE MinMax(args, TRUE)
-         [] f = "sort"   -> IF n = 1 THEN Sort(all[1]) ELSE Err("other")
+         [] f = "sort"   -> IF ~hasRecv THEN AnyOut ELSE IF n = 1 THEN Sort(all[1]) ELSE Err("other")
          [] OTHER        -> AnyOut
 =============================================================================
